@@ -12,6 +12,7 @@ import numbers
 import numpy as np
 
 _ZERO = Fraction(0)
+_TICK = [0, None]     # [term products since the last check, callback installed by the harness]
 
 
 def _lift(x):
@@ -120,6 +121,12 @@ class Poly:
             return Poly({m: (a * re - b * im, a * im + b * re) for m, (a, b) in self.t.items()})
         if not self.t or not o.t:
             return Poly()
+        # cooperative wall-clock budget of pooled cases: every 4096 term products give the harness a chance to stop the case (vk.symx.harness.budget_check)
+        _TICK[0] += len(self.t) * len(o.t)
+        if _TICK[0] >= 4096:
+            _TICK[0] = 0
+            if _TICK[1] is not None:
+                _TICK[1]()
         r = {}
         for m1, (a, b) in self.t.items():
             for m2, (c, d) in o.t.items():
